@@ -13,7 +13,9 @@ any names that are non-empty, free of `'.'` and valid UTF-8 — including names 
 prefixes of each other and multi-byte names) in any valid insertion order (`PreSpec.Valid`: no
 duplicate, every parent declared before its children), and over all per-module stage counts.
 -/
-import Desverif.Proofs.ModTreeBuilder
+import Desverif.Proofs.ModTreeLookups
+import Desverif.Proofs.ObjPathGate
+import Desverif.Proofs.ModRunOrder
 namespace C12
 open ObjPath PreSpec ModTree
 
@@ -155,6 +157,108 @@ theorem valid_node_accepted (D : List SDecl) (p : SDecl)
   node_accept D p _ hn hv
     (buildAll_ok D ((valid_snoc D p).mp hv).1 (fun d hd => hn d (by simp [hd]))).2
 
+/-! ## lookups: parent pointers and children maps (`ModuleContext::standalone` / `child_of`) -/
+
+/-- Every module of the built simulation sits at a declared path, and `path()`, `path().len()`,
+    `name()` and the stage count are those of the declaration; every declaration has its module. -/
+theorem modules_are_the_declared_ones (D : List SDecl) (hv : Valid D) (hn : NamesValid D) :
+    (∀ m ∈ (buildAll D).1.mods, ∃ d ∈ D, m.path = reprOf d.segs ∧ m.stages = d.stages ∧
+        m.path.data = render d.segs ∧ m.path.len = d.segs.length ∧
+        name m.path = .ok (d.segs.getLast?.getD [])) ∧
+    (∀ d ∈ D, ∃ m ∈ (buildAll D).1.mods, m.path = reprOf d.segs ∧ m.stages = d.stages) := by
+  have hb := (buildAll_ok D hv hn).2
+  constructor
+  · intro m hm
+    obtain ⟨d, hd, hp, hs⟩ := binv_mem_decl hv hb hm
+    obtain ⟨h1, h2, _, h4⟩ := path_name_len_of_decl d.segs (hn d hd)
+    exact ⟨d, hd, hp, hs, by rw [hp, h1], by rw [hp, h2], by rw [hp, h4]⟩
+  · intro d hd
+    exact binv_decl_mem hv hb hd
+
+/-- **`parent()` agrees with the declared tree.**  For a module at the declared path `d`, `parent()`
+    fails (`NoEntry`) iff the path has no parent module (length ≤ 1), and otherwise returns the
+    module sitting at the declared parent path. -/
+theorem parents_agree_with_declared_tree (D : List SDecl) (hv : Valid D) (hn : NamesValid D)
+    (m : Mod) (hm : m ∈ (buildAll D).1.mods) (d : SDecl) (hd : d ∈ D) (hmd : m.path = reprOf d.segs) :
+    (par d.segs = none ∧ lookupParent (buildAll D).1 m = none) ∨
+    (∃ q pm, par d.segs = some q ∧ lookupParent (buildAll D).1 m = some pm ∧
+        pm ∈ (buildAll D).1.mods ∧ pm.path = reprOf q) :=
+  lookupParent_spec D _ hv (buildAll_linv D hv hn) m hm d hd hmd
+
+/-- **`child(name)` agrees with the declared tree.**  For a module at the declared path `d` and ANY
+    byte string `nm`: if `d.nm` is a declared child, `child(nm)` returns the module at that path
+    (with that declaration's stage count); otherwise — in particular when `nm` is only a prefix or
+    an extension of a child's name — it fails. -/
+theorem children_agree_with_declared_tree (D : List SDecl) (hv : Valid D) (hn : NamesValid D)
+    (m : Mod) (hm : m ∈ (buildAll D).1.mods) (d : SDecl) (hd : d ∈ D) (hmd : m.path = reprOf d.segs)
+    (nm : List Nat) :
+    (∃ dc ∈ kids D d.segs, dc.segs = d.segs ++ [nm] ∧
+        ∃ cm ∈ (buildAll D).1.mods, lookupChild (buildAll D).1 m nm = some cm ∧
+          cm.path = reprOf dc.segs ∧ cm.stages = dc.stages) ∨
+    ((∀ dc ∈ D, dc.segs ≠ d.segs ++ [nm] ∨ par dc.segs ≠ some d.segs) ∧
+        lookupChild (buildAll D).1 m nm = none) :=
+  lookupChild_spec D _ hv hn (buildAll_linv D hv hn) m hm d hd hmd nm
+
+/-- **The children map is exactly the declared children**: module `m` has an entry under key `nm`
+    iff `d.nm` is one of the declared children of `d` (keys are whole last segments). -/
+theorem children_map_is_declared_children (D : List SDecl) (hv : Valid D) (hn : NamesValid D)
+    (m : Mod) (hm : m ∈ (buildAll D).1.mods) (d : SDecl) (hd : d ∈ D) (hmd : m.path = reprOf d.segs)
+    (nm : List Nat) :
+    (∃ cid, (m.id, nm, cid) ∈ (buildAll D).1.kids) ↔ ∃ dc ∈ kids D d.segs, dc.segs = d.segs ++ [nm] :=
+  kids_keys_spec D _ hv hn (buildAll_linv D hv hn) m hm d hd hmd nm
+
+/-- Module ids are unique, so a `ModuleRef` obtained by a lookup denotes one module. -/
+theorem module_ids_unique (D : List SDecl) (hv : Valid D) (hn : NamesValid D) :
+    ((buildAll D).1.mods.map (·.id)).Nodup :=
+  (buildAll_linv D hv hn).idnd
+
+/-! ## the run: start stages, then events, then tear-down
+
+`ModTree.run` is `Runtime::run` (`start(); dispatch_all(); finish()`) over the kernel model `Rt`,
+for an arbitrary event set `E`, arbitrary message handlers `prog`, arbitrary `add_event` calls made
+by the start stages (`acts`), any limit / start time in `s0`, any fuel. -/
+
+section run
+variable {σ : Type} (E : Rt.ES σ) (prog : Rt.Prog) (fuel : Nat) (acts : Mod → Nat → List Rt.Act)
+  (s0 : Rt.State σ) (ms : List Mod)
+
+/-- **`at_sim_end` after the last event.**  In the callback log of a run every `at_sim_end` call
+    comes after every callback that is not an `at_sim_end` call: after all start stages, all
+    message handlers and all `add_event`s, whatever the message schedule. -/
+theorem sim_end_after_last_event (i j : Nat) (m : Mod) (c : Cb)
+    (hi : (run E prog fuel acts s0 ms).2[i]? = some (.stop m))
+    (hj : (run E prog fuel acts s0 ms).2[j]? = some c) (hc : c.isStop = false) : j < i := by
+  obtain ⟨pre, e, hpre, _⟩ := runWith_split E prog fuel acts s0 (startCalls ms) (endCalls ms)
+  unfold run at hi hj
+  rw [e] at hi hj
+  exact getElem?_split pre _ (fun c => c.isStop = true) (fun c hc => by simp [hpre c hc])
+    (fun c hc => by obtain ⟨x, _, rfl⟩ := List.mem_map.mp hc; rfl) i j _ c hi rfl hj (by simp [hc])
+
+/-- The `at_sim_end` calls of the run are the module vector, each module once, in order. -/
+theorem sim_end_calls_of_run :
+    (run E prog fuel acts s0 ms).2.filterMap Cb.stopOf = endCalls ms :=
+  runWith_stops E prog fuel acts s0 _ _
+
+/-- The `at_sim_start` calls of the run are `startCalls ms` (so the stage-major / exactly-once
+    theorems above speak about the run's log). -/
+theorem sim_start_calls_of_run :
+    (run E prog fuel acts s0 ms).2.filterMap Cb.startOf = startCalls ms :=
+  runWith_starts E prog fuel acts s0 _ _
+
+/-- **All start stages precede the first event**: no message handler runs before the last
+    `at_sim_start` call, even if a stage schedules a message for the current instant. -/
+theorem start_stages_before_events (i j : Nat) (m : Mod) (stage node time : Nat)
+    (hi : (run E prog fuel acts s0 ms).2[i]? = some (.start m stage))
+    (hj : (run E prog fuel acts s0 ms).2[j]? = some (.kernel (.handled node time))) : i < j := by
+  obtain ⟨l1, rest, e, h1, h2⟩ := runWith_split_start E prog fuel acts s0 (startCalls ms) (endCalls ms)
+  unfold run at hi hj
+  rw [e] at hi hj
+  exact getElem?_split2 l1 rest (fun c => c.startOf ≠ none) (fun c => c.isHandled = true)
+    (fun c hc => by simp [h1 c hc]) (fun c hc => by simp [h2 c hc]) i j _ _ hi (by simp [Cb.startOf])
+    hj rfl
+
+end run
+
 /-! ## object paths -/
 
 /-- **`appended` then `parent` / `name` / `len`.**  Appending a name to the path of a declared module
@@ -188,6 +292,26 @@ theorem nonzero_parent_is_declared_parent (s : List (List Nat)) (hs : AllValid s
   unfold par
   split <;> rfl
 
+/-- **`as_parent_str`** of an appended path is the dotted string of the path appended to. -/
+theorem as_parent_str_appended (s : List (List Nat)) (n : List Nat) :
+    asParentStr (reprOf (s ++ [n])) = .ok (render s) :=
+  asParentStr_reprOf_snoc s n
+
+/-- **Gate paths.**  `appended_gate` on a declared module path never fails; the gate path has the
+    module as `parent()`, the gate name as `name()`, the module's dotted string as
+    `as_parent_str()`, one more level, is not a module path, and nothing can be appended to it. -/
+theorem gate_path (s : List (List Nat)) (g x : List Nat) (hs : AllValid s) (hg : ValidName g) :
+    ∃ p', appendedGate (reprOf s) g = .ok p' ∧ p'.isGate = true ∧
+      ObjPath.parent p' = .ok (some (reprOf s)) ∧ name p' = .ok g ∧
+      asParentStr p' = .ok (render s) ∧ p'.len = s.length + 1 ∧ p'.data = render (s ++ [g]) ∧
+      appended p' x = .error .gateAppend ∧ appendedGate p' x = .error .gateAppend :=
+  ⟨gateOf s g, appendedGate_reprOf s g hg.1, rfl,
+    by rw [gateOf, parent_setGate]; exact parent_reprOf_snoc s g hs,
+    by rw [gateOf, name_setGate]; exact name_reprOf_snoc s g hg,
+    by rw [gateOf, asParentStr_setGate]; exact asParentStr_reprOf_snoc s g,
+    by simp [gateOf, reprOf_len], by simp [gateOf, reprOf_data],
+    appended_gateOf s g x, appendedGate_gateOf s g x⟩
+
 /-! ## non-vacuity: a concrete declared tree meets all hypotheses
 
 `a`, `a.al` (shares a prefix with its parent's name and with `a.a`), `b`, `b.ä` (two-byte name),
@@ -219,5 +343,21 @@ def exD' : List SDecl :=
 example : Valid exD' ∧ NamesValid exD' ∧ exD ≠ exD' ∧ roots exD = roots exD' := by decide
 /-- hypotheses of `parent_name_len_appended`: `alice` + `alicent`-style shared prefix, multi-byte name -/
 example : AllValid [[97, 108], [97, 108, 105]] ∧ ValidName [230, 151, 165] := by decide
+
+/-- hypotheses of the lookup theorems: the module of `a` in the built `exD`; its children map has
+    the keys `al` and `a`, and `child("a")` is `a.a`, not `a.al` -/
+example : ∃ m ∈ (buildAll exD).1.mods, m.path = reprOf [[97]] ∧
+    ((lookupChild (buildAll exD).1 m [97]).map (·.path.data)) = some [97, 46, 97] ∧
+    ((lookupChild (buildAll exD).1 m [97, 108]).map (·.path.data)) = some [97, 46, 97, 108] ∧
+    lookupChild (buildAll exD).1 m [97, 108, 105] = none ∧ lookupParent (buildAll exD).1 m = none := by
+  decide
+example : ∃ m ∈ (buildAll exD).1.mods, m.path = reprOf [[98], [195, 164]] ∧
+    ((lookupParent (buildAll exD).1 m).map (·.path.data)) = some [98] := by decide
+/-- a run with messages: `b` schedules a self-message in each of its two stages; the log has starts,
+    then two handled events, then five `stop`s -/
+example : ((run Rt.fesES [] 10 (fun m st => if m.path.data = [98] then [⟨false, st + 1, m.id⟩] else [])
+    (Rt.build FES.init 0 .none) (buildAll exD).1.mods).2.map
+      (fun c => match c with | .start _ _ => 0 | .kernel (.handled _ _) => 1 | .kernel _ => 2 | .stop _ => 3))
+    = [0, 0, 0, 2, 0, 0, 2, 0, 0, 1, 1, 3, 3, 3, 3, 3] := by decide
 
 end C12
